@@ -12,6 +12,10 @@
       are compared with the model's history (Model/RequestsRun.v).
 (iii) substitution: an EvaluateRequest handler answering a fixed value for one dataset, compared
       with the graph in which the dataset is replaced by the constant.
+(iv)  nesting: the recording / substituting handlers installed outside, inside or between the library's
+      own context managers labrea.cache.disabled() / labrea.logging.disabled() (a user handler replaced by
+      a library context entered inside it serves nothing: not installed, for the model); every successful
+      evaluation of an Option under E and T recorders must have its type check come by as a request.
 """
 import collections
 import contextlib
@@ -20,6 +24,7 @@ import resource
 import inspect
 import logging as pylogging
 import pkgutil
+import random
 import re
 import sys
 
@@ -59,6 +64,31 @@ def request_types():
 
 
 SUBJECT_ATTR = {"E": "evaluatable", "V": "validatable", "K": "cacheable", "X": "explainable"}
+
+# A handler spec is (kinds recorded, substituted dataset or None, substituted value[, nesting]).
+# nesting = where the user's handlers are installed relative to the library's own context managers
+# labrea.cache.disabled() / labrea.logging.disabled() of the operation (when it uses them):
+#   "inside"       library contexts entered first, handlers installed inside them (the default)
+#   "outside"      handlers installed first, both library contexts entered inside
+#   "cache-inside" logging.disabled(), then the handlers, then cache.disabled()
+#   "log-inside"   cache.disabled(), then the handlers, then logging.disabled()
+NESTS = ["inside", "outside", "cache-inside", "log-inside"]
+CACHE_KINDS = ("ce", "cg", "cs")
+
+
+def nest_of(h):
+    return h[3] if len(h) > 3 else "inside"
+
+
+def overridden(nest, cc, lc):
+    """request kinds whose user handler is replaced by a library context manager entered INSIDE the user's
+    handlers (the innermost handler of a request type is the one that serves it)"""
+    out = set()
+    if cc and nest in ("outside", "cache-inside"):
+        out |= set(CACHE_KINDS)
+    if lc and nest in ("outside", "log-inside"):
+        out.add("L")
+    return out
 
 # ----------------------------------------------------------------------------- building, labelling
 
@@ -230,6 +260,10 @@ class Recorder:
         self.answers = 0        # requests answered by the substituting handler
         self.open = []          # stack of (kind, subject)
         self.ds_msgs = None
+        self.kinds = set()      # kinds with a recording handler installed and serving
+        self.type_seen = {}     # option node -> TypeValidationRequests seen for it
+        self.untyped = []       # option nodes whose EvaluateRequest completed without a type check reaching the handler
+        self._opt = (0, set())
 
     def label(self, kind, req):
         b = self.b
@@ -257,16 +291,33 @@ class Recorder:
             return ("cache", "-"), req.cache
         return None, req.cache
 
+    def option_labels(self):
+        """the scenario nodes that are Options (built with a type marker of their own)"""
+        tk = self.b.type_key
+        if self._opt[0] != len(tk):
+            self._opt = (len(tk), set(tk.values()))
+        return self._opt[1]
+
     def handler(self, kind, inner):
         def h(req):
             lab, subj = self.label(kind, req)
             self.seen.append((kind, lab))
             self.open.append((kind, subj))
+            mark = None
+            if kind == "T":
+                self.type_seen[lab] = self.type_seen.get(lab, 0) + 1
+            elif kind == "E" and "T" in self.kinds and lab is not None and lab in self.option_labels():
+                mark = self.type_seen.get(lab, 0)
             try:
-                return inner(req)
+                r = inner(req)
             except BaseException:
                 self.failed.append((kind, lab))
                 raise
+            else:
+                # the option's evaluation succeeded: its type check must have come by as a request
+                if mark is not None and self.type_seen.get(lab, 0) == mark:
+                    self.untyped.append(lab)
+                return r
             finally:
                 self.open.pop()
         return h
@@ -355,18 +406,24 @@ def run_impl_rq(scn, hspecs, monitor=False, raw_out=None, info=None):
     old_level = root.level
     root.setLevel(pylogging.DEBUG)
     try:
-        for (m, i, cc, lc, o), (kinds, sub_ds, sub_val) in zip(scn["ops"], hspecs):
+        for (m, i, cc, lc, o), hspec in zip(scn["ops"], hspecs):
+            kinds, sub_ds, sub_val = hspec[:3]
+            nest = nest_of(hspec)
+            gone = overridden(nest, cc, lc)
             po = core.py_json(o)
             w.calls.clear()
             rec = Recorder(b, w)
-            mon = Monitor(rec, kinds) if monitor else None
+            rec.kinds = {k for k in kinds if k not in gone}
+            mon = Monitor(rec, [k for k in kinds if k not in gone]) if monitor else None
             cap = _LogCapture((lambda: (w.calls.append("emit"), mon.log_emitted() if mon else None)))
             root.addHandler(cap)
             try:
                 with contextlib.ExitStack() as st:
-                    if cc:
+                    cache_first = cc and nest in ("inside", "log-inside")
+                    log_first = lc and nest in ("inside", "cache-inside")
+                    if cache_first:
                         st.enter_context(labrea.cache.disabled())
-                    if lc:
+                    if log_first:
                         st.enter_context(labrea.logging.disabled())
                     cur = runtime.current_runtime().handlers
                     table = {}
@@ -389,6 +446,11 @@ def run_impl_rq(scn, hspecs, monitor=False, raw_out=None, info=None):
                         table[T] = subst
                     if table:
                         st.enter_context(runtime.handle(table))
+                    # library context managers entered INSIDE the user's handlers
+                    if cc and not cache_first:
+                        st.enter_context(labrea.cache.disabled())
+                    if lc and not log_first:
+                        st.enter_context(labrea.logging.disabled())
                     obj = objs[i]
                     raw = None
                     if mon:
@@ -418,7 +480,7 @@ def run_impl_rq(scn, hspecs, monitor=False, raw_out=None, info=None):
             lines.append(CANON(r + "|" + " ".join(w.calls)))
             seens.append(list(rec.seen))
             bypasses.append(list(mon.bypasses) if mon else [])
-            extra.append(dict(failed=list(rec.failed), answers=rec.answers))
+            extra.append(dict(failed=list(rec.failed), answers=rec.answers, untyped=list(rec.untyped)))
             if raw_out is not None:
                 raw_out.append(raw)
     finally:
@@ -445,7 +507,11 @@ def coq_scenario_rq(scn, hspecs, table="lv_rt", all_nodes=False):
     vis = "None" if all_nodes else f"(Some {coq_paths(sorted(set(pmap) | set(logs)))})"
     es = "[" + "; ".join(pr.expr(e) for e in scn["exprs"]) + "]"
     ops = []
-    for (m, i, cc, lc, o), (kinds, sub_ds, sub_val) in zip(scn["ops"], hspecs):
+    for (m, i, cc, lc, o), hspec in zip(scn["ops"], hspecs):
+        kinds, sub_ds, sub_val = hspec[:3]
+        # a user handler replaced by a library context entered inside it serves nothing: not installed, for the model
+        gone = overridden(nest_of(hspec), cc, lc)
+        kinds = [k for k in kinds if k not in gone]
         op = "{| op_meth := %s; op_expr := %d%%nat; op_cfg := {| cache_ctx_off := %s; log_ctx_off := %s |}; op_opts := %s |}" % (
             core.METH[m], i, "true" if cc else "false", "true" if lc else "false", core.coq_dict(o))
         sel = sorted(p for p, lab in pmap.items() if sub_ds is not None and lab == ("ds", sub_ds))
@@ -726,6 +792,127 @@ def odd_handler_probes():
     return out
 
 
+def option_type_probes():
+    """the type check of an Option is a request whichever way its value arises (supplied, templated,
+    constant / templated / evaluatable / factory default), alone and as a dependency of a dataset"""
+    from labrea import Option, dataset, runtime
+    from labrea.type_validation import TypeValidationRequest
+    default = runtime._DEFAULT_HANDLERS[TypeValidationRequest]
+    ways = {
+        "value supplied in the dictionary": (lambda T: Option("A", type=T), {"A": 1}, 1),
+        "templated string supplied in the dictionary": (lambda T: Option("S", type=T), {"S": "x{A}", "A": 1}, "x1"),
+        "constant default": (lambda T: Option("Z", 3, type=T), {"A": 1}, 3),
+        "falsy constant default": (lambda T: Option("Z", 0, type=T), {}, 0),
+        "None default": (lambda T: Option("Z", None, type=T), {}, None),
+        "templated string default": (lambda T: Option("Z", "x{A}", type=T), {"A": 1}, "x1"),
+        "evaluatable default": (lambda T: Option("Z", Option("A"), type=T), {"A": 1}, 1),
+        "default_factory": (lambda T: Option("Z", default_factory=lambda: 4, type=T), {}, 4),
+    }
+    out = []
+    for name, (mk, o, want) in ways.items():
+        for nested in (False, True):
+            T = type("ProbeType", (), {})
+            seen = []
+
+            def h(req, _seen=seen):
+                _seen.append((req.value, req.type))
+                return default(req)
+            try:
+                opt = mk(T)
+                if nested:
+                    def body(x=opt):
+                        return x
+                    body.__name__ = body.__qualname__ = "probe_typed"
+                    subject = dataset(body)
+                else:
+                    subject = opt
+                with runtime.handle(TypeValidationRequest, h):
+                    got = subject.evaluate(o)
+                ok = got == want and any(t is T and v == want for v, t in seen)
+                why = f"evaluation returned {got!r}; the TypeValidationRequest handler saw {len(seen)} request(s), none for this option's type" if not ok else ""
+            except Exception as e:  # noqa
+                ok, why = False, f"probe raised {type(e).__name__}"
+            if not ok:
+                out.append(dict(kind="sweep", desc=f"the type check of an Option ({name}{', as a dependency of a dataset' if nested else ''}) is not issued as a "
+                                                   f"TypeValidationRequest seen by an installed pass-through handler: {why}",
+                                cls="labrea.option.Option", method=f"type-check/{name}/{'nested' if nested else 'direct'}", finding=None))
+    return out
+
+
+def library_context_probes():
+    """the library's own context managers derive from the CURRENT runtime: user handlers installed outside
+    labrea.cache.disabled() / labrea.logging.disabled() (either, both, in both orders) keep observing every
+    request type they do not themselves replace, and keep substituting, inside the block"""
+    import labrea.cache
+    import labrea.logging
+    from labrea import Option, dataset, runtime
+    RT = request_types()
+    out = []
+    ctxs = {"cache.disabled": (labrea.cache.disabled, set(CACHE_KINDS)), "logging.disabled": (labrea.logging.disabled, {"L"})}
+    stacks = [("cache.disabled",), ("logging.disabled",), ("cache.disabled", "logging.disabled"), ("logging.disabled", "cache.disabled")]
+    def graph():
+        def dep(a=Option("A", type=int)):
+            return a * 10
+        dep.__name__ = dep.__qualname__ = "probe_dep"
+        dep_ds = dataset(dep)
+
+        def top(b=dep_ds):
+            return b + 1
+        top.__name__ = top.__qualname__ = "probe_top"
+        return dep_ds, dataset(top)
+
+    for stack in stacks:
+        dep_ds, top_ds = graph()
+        replaced = set().union(*(ctxs[c][1] for c in stack))
+        got = {k: 0 for k in KINDS}
+        table = {}
+        for k in KINDS:
+            d = runtime._DEFAULT_HANDLERS[RT[k]]
+
+            def h(req, _k=k, _d=d):
+                got[_k] += 1
+                return _d(req)
+            table[RT[k]] = h
+        name = " then ".join(stack)
+        try:
+            with contextlib.ExitStack() as st:
+                st.enter_context(runtime.handle(table))
+                for c in stack:
+                    st.enter_context(ctxs[c][0]())
+                r = top_ds.evaluate({"A": 1})
+                top_ds.validate({"A": 1})
+                top_ds.keys({"A": 1})
+                top_ds.explain({"A": 1})
+            need = [k for k in KINDS if k not in replaced and not (k in CACHE_KINDS)]
+            if "cache.disabled" not in stack:
+                need += list(CACHE_KINDS[:1])
+            missing = [k for k in need if got[k] == 0]
+            if r != 11 or missing:
+                out.append(dict(kind="sweep", desc=f"pass-through handlers installed OUTSIDE labrea.{name}() do not observe the operations inside the block "
+                                                   f"(result {r!r}; no request of kind(s) {','.join(missing)} reached them)",
+                                cls="labrea.runtime.Runtime", method=f"outside/{name}/observe", finding=None))
+
+            dep_ds, top_ds = graph()          # fresh datasets: nothing memoised by the run above
+
+            def subst(req, _d=runtime._DEFAULT_HANDLERS[RT["E"]], _dep=dep_ds):
+                if req.evaluatable is _dep:
+                    return 1000
+                return _d(req)
+            with contextlib.ExitStack() as st:
+                st.enter_context(runtime.handle(RT["E"], subst))
+                for c in stack:
+                    st.enter_context(ctxs[c][0]())
+                r2 = top_ds.evaluate({"A": 1})
+            if r2 != 1001:
+                out.append(dict(kind="sweep", desc=f"a handler substituting a dataset's result, installed OUTSIDE labrea.{name}(), is not honoured where the dataset "
+                                                   f"is a dependency inside the block (got {r2!r})",
+                                cls="labrea.runtime.Runtime", method=f"outside/{name}/substitute", finding=None))
+        except Exception as e:  # noqa
+            out.append(dict(kind="sweep", desc=f"evaluation under handlers installed outside labrea.{name}() raised {type(e).__name__}",
+                            cls="labrea.runtime.Runtime", method=f"outside/{name}/observe", finding=None))
+    return out
+
+
 def sweep():
     """rows of the reflection table + violations (one per class/method that is not request-routed)"""
     from labrea.types import Cacheable, Evaluatable, Explainable, Validatable
@@ -770,6 +957,8 @@ def sweep():
                                        cls=f"{cls.__module__}.{name}", method="side", finding=None))
         rows.append(dict(i=i, name=f"{cls.__module__}.{name}", ctor=CTOR.get(name), side=side_ok, **flags))
     violations += odd_handler_probes()
+    violations += option_type_probes()
+    violations += library_context_probes()
     return rows, violations
 
 
@@ -832,6 +1021,29 @@ def handler_plan(rng, scn):
     return plan
 
 
+def nested_scenario(rng, i):
+    """a scenario whose operations often run inside labrea.cache.disabled() / labrea.logging.disabled(), with the
+    user's handlers installed outside, inside or between the library's context managers"""
+    g = gen.Gen(rng, with_alloptions=(i % 10 == 0), preset_on_ds=0.3 if i % 2 else 0.0)
+    s = g.scenario(n_exprs=2, depth=3, n_ops=12, switches=True)
+    ops, plan = [], []
+    for (m, j, _cc, _lc, o) in s["ops"]:
+        cc = rng.random() < 0.5
+        lc = rng.random() < 0.35
+        if not (cc or lc):
+            cc = True
+        ops.append((m, j, cc, lc, o))
+        r = rng.random()
+        if r < 0.6:
+            kinds = list(KINDS)
+        elif r < 0.8:
+            kinds = rng.sample(KINDS, rng.randint(2, 5))
+        else:
+            kinds = [rng.choice(KINDS)]
+        plan.append((kinds, None, None, rng.choice(NESTS[1:]) if rng.random() < 0.8 else "inside"))
+    return dict(s, ops=ops), plan
+
+
 PLAIN = ([], None, None)
 STATS = {"ops_compared": 0, "same_sequence": 0, "same_multiset": 0}
 
@@ -842,7 +1054,8 @@ def check_passthrough(scn, plan):
     (b) nothing runs outside a request seen by the handlers (bypass monitor).
     Returns (violations, lines with handlers, seen lists)"""
     out = []
-    lines_h, seens, byps = run_impl_rq(scn, plan, monitor=True)
+    info = []
+    lines_h, seens, byps = run_impl_rq(scn, plan, monitor=True, info=info)
     lines_p, _, _ = run_impl_rq(scn, [PLAIN] * len(scn["ops"]))
     for j, (a, b) in enumerate(zip(lines_h, lines_p)):
         if a != b:
@@ -853,8 +1066,17 @@ def check_passthrough(scn, plan):
             break
     for j, b in enumerate(byps):
         if b:
-            out.append(dict(kind="bypass", desc="an operation ran outside a request seen by the installed handlers: " + "; ".join(sorted(set(b))[:4]),
+            nest = nest_of(plan[j])
+            where = "" if nest == "inside" else f" (handlers installed with nesting '{nest}' relative to labrea.cache.disabled()/labrea.logging.disabled())"
+            out.append(dict(kind="bypass", desc="an operation ran outside a request seen by the installed handlers" + where + ": " + "; ".join(sorted(set(b))[:4]),
                             op_index=j, finding=None, scenario_repr=cp.dump_scn(scn), plan_repr=repr(plan)))
+            break
+    for j, inf in enumerate(info):
+        if inf["untyped"]:
+            out.append(dict(kind="typecheck", desc="an Option was evaluated successfully under recording pass-through handlers for EvaluateRequest and "
+                            f"TypeValidationRequest, but its type check never reached the TypeValidationRequest handler ({len(inf['untyped'])} option evaluation(s) "
+                            "of this operation): the option type check was not issued as a request",
+                            op_index=j, op=repr(scn["ops"][j])[:300], finding=None, scenario_repr=cp.dump_scn(scn), plan_repr=repr(plan)))
             break
     return out, lines_h, seens
 
@@ -995,13 +1217,13 @@ def uses_dataset(scn, e, dsid, seen=None):
     return False
 
 
-def check_subst(scn, idx, target, val, options, cc):
+def check_subst(scn, idx, target, val, options, cc, lc=False, nest="inside"):
     """one substitution check on freshly built graphs.  Returns (agree, zone, detail)"""
-    one = dict(scn, exprs=[scn["exprs"][idx]], ops=[("evaluate", 0, cc, False, options)])
+    one = dict(scn, exprs=[scn["exprs"][idx]], ops=[("evaluate", 0, cc, lc, options)])
     raws_s, info = [], []
-    ls, _, _ = run_impl_rq(one, [(["V", "K", "X"], target, val)], raw_out=raws_s, info=info)
+    ls, _, _ = run_impl_rq(one, [(["V", "K", "X"], target, val, nest)], raw_out=raws_s, info=info)
     ref = dict(ftable=scn["ftable"], env=replace_dataset({k: v for k, v in scn["env"].items() if k != target}, target, val),
-               exprs=[replace_dataset(scn["exprs"][idx], target, val)], ops=[("evaluate", 0, cc, False, options)])
+               exprs=[replace_dataset(scn["exprs"][idx], target, val)], ops=[("evaluate", 0, cc, lc, options)])
     # datasets derived from the target cannot be expressed once it is a constant: skip such graphs
     if any(dd.get("derived") == target for dd in scn["env"].values()):
         return True, False, dict(skipped="a dataset is derived from the target")
@@ -1043,6 +1265,8 @@ def run(ctx):
     n = 170 if ctx.quick else 1700
     distinct = set()
     by_handlers = {"none": 0, "single": 0, "several": 0, "all": 0}
+    by_nest, sub_by_nest = {}, {}
+    n_nested = 0
     kinds_seen = {k: 0 for k in KINDS}
     samples, by_shape, sub_corr = [], {}, []
     try:
@@ -1054,6 +1278,14 @@ def run(ctx):
             s = g.scenario(n_exprs=2, depth=3, n_ops=12, switches=(i % 5 == 0))
             scns.append(s)
             plans.append(handler_plan(rng, s))
+        # user handlers outside / between the library's own context managers (own generator: the streams
+        # above and below are the ones they were before this stream existed)
+        nrng = random.Random(ctx.seed * 31 + 18)
+        n_nested = 60 if ctx.quick else 600
+        for i in range(n_nested):
+            s, p = nested_scenario(nrng, i)
+            scns.append(s)
+            plans.append(p)
         outs = ctx.coq_eval("Cases_C18", REQ, table_prelude, [coq_scenario_rq(s, p) for s, p in zip(scns, plans)], shard=12)
         ops = tokens = oracle_checks = 0
         distinct = set()
@@ -1069,7 +1301,9 @@ def run(ctx):
                 mism.append(mm)
             ops += len(s["ops"])
             tokens += compared
-            for (kinds, _, _), sv in zip(p, seens):
+            for hs, sv in zip(p, seens):
+                kinds = hs[0]
+                by_nest[nest_of(hs)] = by_nest.get(nest_of(hs), 0) + 1
                 by_handlers["none" if not kinds else "all" if len(kinds) == len(KINDS) else "single" if len(kinds) == 1 else "several"] += 1
                 for k, lab in sv:
                     kinds_seen[k] += 1
@@ -1087,6 +1321,7 @@ def run(ctx):
         by_shape = {}
         sub_corr = []          # (scenario, hspec) for the model
         tagged = 0
+        srng = random.Random(ctx.seed * 31 + 19)
         for _ in range(m):
             scn, shapes, d, pool = subst_cases(rng)
             for idx, shape in enumerate(shapes):
@@ -1112,6 +1347,28 @@ def run(ctx):
                                            scenario_repr=cp.dump_scn(scn)))
                 one = dict(scn, exprs=[scn["exprs"][idx]], ops=[("evaluate", 0, cc, False, o)])
                 sub_corr.append((one, [([], d, val)], det["line"]))
+                sub_by_nest["inside"] = sub_by_nest.get("inside", 0) + 1
+                # the same substitution with the handler installed OUTSIDE / between the library's context managers
+                if srng.random() < 0.6:
+                    cc2 = srng.random() < 0.75
+                    lc2 = (not cc2) or srng.random() < 0.35
+                    nest = srng.choice(NESTS[1:])
+                    agree, zone, det = check_subst(scn, idx, d, val, o, cc2, lc2, nest)
+                    sub_checks += 1
+                    sub_answered += 1 if det["answers"] else 0
+                    sub_by_nest[nest] = sub_by_nest.get(nest, 0) + 1
+                    if not agree:
+                        finding = "C18-K" if zone else None
+                        sub_zone += 1 if zone else 0
+                        violations.append(dict(kind="subst", desc=f"the dataset's substituted result is not honoured ({shape}; the substituting handler installed "
+                                               f"with nesting '{nest}' relative to labrea.cache.disabled()/labrea.logging.disabled()): evaluation under the "
+                                               "substituting handler differs from the evaluation of the graph with the dataset replaced by the constant",
+                                               shape=shape, root_index=idx, target=d, value=repr(val), options=repr(o), cache_disabled=cc2,
+                                               log_disabled=lc2, nest=nest,
+                                               substituted=det["substituted"], replaced=det["replaced"], finding=finding,
+                                               scenario_repr=cp.dump_scn(scn)))
+                    one = dict(scn, exprs=[scn["exprs"][idx]], ops=[("evaluate", 0, cc2, lc2, o)])
+                    sub_corr.append((one, [([], d, val, nest)], det["line"]))
         if sub_corr:
             outs2 = ctx.coq_eval("Subst_C18", REQ, table_prelude, [coq_scenario_rq(s, h) for s, h, _ in sub_corr], shard=40)
             for (s, h, line), out in zip(sub_corr, outs2):
@@ -1120,7 +1377,8 @@ def run(ctx):
                 # the implementation line was taken with V/K/X recorders installed (transparent)
                 if agreement(line, res, multi) == "different" and len(mism) < 5:
                     mism.append(dict(where="Model/Requests.v vs labrea (evaluation under the substituting handler)", impl=line,
-                                     model=cp.strip_ghost(res), target=h[0][1], value=repr(h[0][2]), scenario_repr=cp.dump_scn(s)))
+                                     model=cp.strip_ghost(res), target=h[0][1], value=repr(h[0][2]), nest=nest_of(h[0]),
+                                     scenario_repr=cp.dump_scn(s)))
     except Exception as e:  # noqa  the implementation is too broken to drive: keep what was found (fail closed)
         import traceback
         mism.append({"where": "harness stage failed on this implementation", "error": repr(e), "trace": traceback.format_exc()[-1500:]})
@@ -1140,13 +1398,15 @@ def run(ctx):
                 "handlers recorded >= 20 requests on user-visible nodes of >= 4 kinds in the history; distinct by hash of the scenario. "
                 "Substitution: a dataset of a random graph used as argument / dispatch / switch dispatch and branch / coalesce member / mapped "
                 "expression / option default / call argument / inside a cached consumer, fresh graphs, value compared with the graph in which "
-                "the dataset is the constant.",
+                "the dataset is the constant. Nesting stream: operations inside labrea.cache.disabled() / labrea.logging.disabled() with the "
+                "recording or substituting handlers installed outside, inside or between them.",
         "samples": samples,
         "traces_validated_against_impl": ops + len(sub_corr),
         "correspondence_mismatches": mism[:5],
         "violations": violations,
         "known": known,
-        "distribution": dict(classes_swept=len(rows), methods_probed=4 * len(rows), scenarios=n, ops=ops,
+        "distribution": dict(classes_swept=len(rows), methods_probed=4 * len(rows), scenarios=n + n_nested, scenarios_nested_contexts=n_nested, ops=ops,
+                             ops_by_nesting=by_nest, substitution_by_nesting=sub_by_nest,
                              requests_compared_with_model=tokens, trace_agreement=dict(STATS), ops_by_handlers=by_handlers, requests_seen_by_kind=kinds_seen,
                              substitution_checks=sub_checks, substitution_answered=sub_answered, substitution_by_shape=by_shape,
                              substitution_in_known_zone=sub_zone),
@@ -1155,6 +1415,9 @@ def run(ctx):
             "the reflection table is exhaustive over the classes DEFINED in the labrea package at run time (30 classes x 4 methods + side "
             "operations, walked by pkgutil); classes created by users are outside it",
             "handlers of the modelled kinds only: absent, recording pass-through, or answering EvaluateRequest for selected nodes",
+            "a user handler installed OUTSIDE a library context manager that replaces the handler of its request type (cache kinds under "
+            "cache.disabled(), LogRequest under logging.disabled()) is expected to see nothing of that type (innermost handler serves); the "
+            "model is given the handler table without those kinds",
             "PARTIAL: (2) states the requests of unconditionally visited sub-nodes for successful runs; which conditional sub-nodes are "
             "visited is compared with the implementation run by run (exact sequences on user-visible nodes); (3) is proved on the fragment "
             "[frag] (no selected node below a Coalesce or a Cached with a memory cache in use) and refuted outside it (finding C18-K)",
@@ -1179,8 +1442,8 @@ def replay(ctx, payload):
                     scn = cp.load_scn(b["scenario_repr"])
                     rows, _ = sweep()
                     val = eval(b["value"], {"S": core.S})
-                    hs = [([], b["target"], val)]
-                    il, _, _ = run_impl_rq(scn, [(["V", "K", "X"], b["target"], val)])
+                    hs = [([], b["target"], val, b.get("nest", "inside"))]
+                    il, _, _ = run_impl_rq(scn, [(["V", "K", "X"], b["target"], val, b.get("nest", "inside"))])
                     out = ctx.coq_eval("Replay_C18s", REQ, "Definition lv_rt : rtable :=\n  " + coq_table(rows) + ".", [coq_scenario_rq(scn, hs)])[0]
                     res, _, _ = parse_model_line(out)
                     st = agreement(il[0], res, True) == "different"
@@ -1201,8 +1464,9 @@ def replay(ctx, payload):
         scn = cp.load_scn(payload["scenario_repr"])
         val = eval(payload["value"], {"S": core.S})
         o = eval(payload["options"], {"S": core.S})
-        agree, zone, det = check_subst(scn, payload["root_index"], payload["target"], val, o, payload["cache_disabled"])
-        return (not agree), dict(det, in_known_zone=zone)
+        agree, zone, det = check_subst(scn, payload["root_index"], payload["target"], val, o, payload["cache_disabled"],
+                                       payload.get("log_disabled", False), payload.get("nest", "inside"))
+        return (not agree), dict(det, in_known_zone=zone, nest=payload.get("nest", "inside"))
     if payload.get("plan_repr"):
         scn = cp.load_scn(payload["scenario_repr"])
         plan = eval(payload["plan_repr"])
